@@ -17,7 +17,7 @@ BOX = 1000
 
 PRELUDE = """From Coq Require Import List String Bool QArith ZArith.
 Import ListNotations.
-Require Import Py ListsGen Sem Term Poly Tactics Corr PolyDomain.
+Require Import Py ListsGen AlgebraGen Sem Term Poly Tactics Corr PolyDomain.
 Open Scope string_scope.
 """
 
